@@ -425,6 +425,24 @@ def _weighting(ctx, cv):
                     for l2 in walk_no_nested(cv.node):
                         if isinstance(l2, ast.For) and any(x is n for x in ast.walk(l2)):
                             loops.append(N(l2.iter))
+                    # orientation: prob_mat is indexed (Alice question, Bob question); the copy must still be in that orientation, i.e.
+                    # no re-orientation (transpose / swapaxes of the weighted array) may run before the weighting on any path
+                    arr = n.targets[0].value.id if isinstance(n.targets[0].value, ast.Name) else None
+                    early = []
+                    for st in walk_no_nested(cv.node):
+                        if isinstance(st, ast.Assign) and len(st.targets) == 1 and isinstance(st.targets[0], ast.Name) and st.targets[0].id == arr and st.lineno < n.lineno \
+                                and isinstance(st.value, ast.Call) and (getattr(st.value.func, "attr", "") in ("transpose", "swapaxes", "moveaxis")):
+                            axes = [a for a in st.value.args if isinstance(a, (ast.Tuple, ast.List))]
+                            perm = [e.value for e in axes[0].elts if isinstance(e, ast.Constant)] if axes else None
+                            # a transposition that leaves the two question axes (2, 3) where they are does not matter
+                            if perm is None or len(perm) != 4 or perm[2:] != [2, 3]:
+                                early.append(st)
+                    uses_T = any(isinstance(x, ast.Attribute) and x.attr == "T" and "prob_mat" in unparse(x.value) for x in ast.walk(n.value))
+                    if arr is not None:
+                        ctx.ob("R-ORDER", cv, "the copy is weighted by pi(x, y) before any player swap re-orients its question axes", not early or None if uses_T else not early,
+                               "weighting precedes every transposition of the question axes" if not early else
+                               f"`{unparse(early[0])[:70]}` (line {early[0].lineno}) can run before the weighting: on that path axis 2 is Bob's question while prob_mat[{qs[0]}, {qs[1]}] "
+                               "is still indexed (Alice, Bob) -- the distribution is applied transposed", n)
                     rr = sorted(roles.get(t[2][0][1], "?") for t in loops if t[0] == "call" and t[2] and t[2][0][0] == "n")
                     ctx.ob("R-ENUM", cv, "weighting covers every question pair", rr == ["P_in", "Q_in"],
                            "loops over all x and all y" if rr == ["P_in", "Q_in"] else f"weighting loops range over roles {rr}", n)
